@@ -96,6 +96,14 @@ TABLE = [
     ('#FOREACH(1,2)(n,n, & )', '1 & 2', '1 &amp; 2', {}),
     ('#FOR1,3(n,n, < , > )', '1 < 2 > 3', '1 &lt; 2 &gt; 3', {}),
     ('#FOREACH(a&b,c)(v,[v])', '[a&b][c]', '[a&amp;b][c]', {}),
+    ('#FOREACH(a,b,c)(n,[n],; , & )', '[a]; [b] & [c]', '[a]; [b] &amp; [c]', {}),
+    ('#FOREACH(a,b,c)(n,n, < , > )', 'a < b > c', 'a &lt; b &gt; c', {}),
+    ('#FOREACH(a,b)(n,n, & )', 'a & b', 'a &amp; b', {}),
+    ('#FOR1,2/,n,(n,n),;,/', '(1,1);(2,2)', None, {}),
+    ('#FOREACH(1,2)/,n,(n,n),;,/', '(1,1);(2,2)', None, {}),
+    ('#IF(1)/,(a,b),c,/', '(a,b)', None, {}),
+    ('#MAP(2)/,x,1:(a,b),2:(c,d),/', '(c,d)', None, {}),
+    ('#FOR1,2//n/(n,n)/;//', '(1,1);(2,2)', None, {}),
     ('#IF(1<2)(yes,no)', 'yes', None, {}),
     ('#IF(0)(yes,no)', 'no', None, {}),
     ('#IF(0)(yes)', '', None, {}),
